@@ -7,7 +7,7 @@ from harness import table_scorers as ts
 from harness.engine import coq_bad_cases, coq_eval, coq_list, nlist, pairs_nat, zlit
 
 INFO = {
-    "extra_targets": ["Check/SbsCheck.vo"],
+    "extra_targets": ["Check/SbsCheck.vo", "Check/GenericCheck.vo"],
     "level": "proof",
     "rule": "integer change scores (pseudo-random formula columns and integer CUSUM numerators of data with level shifts, p = 1..3) "
             "driven through the real SeededBinarySegmentation with an integer threshold_; configuration drawn from "
@@ -199,3 +199,6 @@ def run(ctx):
                       f"of the model for lengths/steps {g['lens']}, or outside [0,n] / the length bounds", g, {"what": "interval-construction"})
     from harness import helpers as _helpers
     _helpers.sbs_helpers(ctx)
+    # ---- the same search loop on BINARY64 score tables of the real built-in scorers (Model/Generic.v at Model/GenericF.v), bit for bit ----
+    from harness import floatstreams
+    floatstreams.sbs_float_stream(ctx, ctx.n(30, 200))
